@@ -85,14 +85,15 @@ Fixpoint new_symbols (ns gen : list string) (reqs : list (string * list qn)) : o
   end.
 
 (* ---- the reserved set: Scope.referenced ---------------------------------- *)
-Inductive sfield : Set := FRead | FModified | FBound.
-Record scope : Set := mkscope { s_read : list string; s_modified : list string; s_bound : list string }.
+Inductive sfield : Set := FRead | FModified | FBound | FHidden.
+(* s_hidden: names bound by except clauses (`except E as name`) of the block or of nested blocks *)
+Record scope : Set := mkscope { s_read : list string; s_modified : list string; s_bound : list string; s_hidden : list string }.
 Definition sget (s : scope) (f : sfield) : list string :=
-  match f with FRead => s_read s | FModified => s_modified s | FBound => s_bound s end.
+  match f with FRead => s_read s | FModified => s_modified s | FBound => s_bound s | FHidden => s_hidden s end.
 (* scope chain: innermost first; referenced = union of the selected sets over the whole chain *)
 Definition referenced (fields : list sfield) (chain : list scope) : list string :=
   concat (map (fun s => concat (map (sget s) fields)) chain).
 Definition sfield_beq (a b : sfield) : bool :=
-  match a, b with FRead, FRead | FModified, FModified | FBound, FBound => true | _, _ => false end.
+  match a, b with FRead, FRead | FModified, FModified | FBound, FBound | FHidden, FHidden => true | _, _ => false end.
 Definition covers_writes (fields : list sfield) : bool :=
-  existsb (sfield_beq FRead) fields && existsb (sfield_beq FModified) fields.
+  existsb (sfield_beq FRead) fields && existsb (sfield_beq FModified) fields && existsb (sfield_beq FHidden) fields.
